@@ -7,6 +7,11 @@ rm -rf $SNAP; mkdir -p $SNAP/tools; cp -r /verif/sim $SNAP/sim; cp -r /verif/too
 for d in /verif/seeded/*/; do
   id=$(basename $d)
   VERIF_SRC=$SNAP /verif/tools/seeded_eval.sh $id $TIER 2>&1 | tail -1 | cut -c1-300
+  # checks of other properties that were recorded for this change (a change caught by a neighbour's check)
+  own=$(jq -r .property $d/meta.json)
+  for other in $(jq -r '.checks // {} | keys[]' $d/meta.json | grep -v "^$own\$"); do
+    VERIF_SRC=$SNAP /verif/tools/seeded_eval.sh $id $TIER 120 $other 2>&1 | tail -1 | cut -c1-300
+  done
 done > /tmp/seeded-all.log 2>&1
 rm -rf $SNAP
 python3 /verif/tools/seeded_table.py > /dev/null
